@@ -336,9 +336,15 @@ Proof. exact derived_field_complete_iff. Qed.
 
 Theorem c09_args_lossless_rows : forall c fl, copy_args_lossless c fl = true ->
   forall f k w, In (f, k, w) c -> needs_source w = true ->
-  (forall g m, In (g, m) (flows_of fl f) -> g = f /\ flow_harmless m = true) /\
+  (forall g m, In (g, m) (flows_of fl f) -> g = f /\ flow_harmless_for k m = true) /\
   (exists g m, In (g, m) (flows_of fl f) /\ flow_carries m = true).
 Proof. exact lossless_rows. Qed.
+
+(** For an immutable scalar field (str / int / float / bool: [KImm]) the admitted flow modes are complete for EVERY
+    value of the original, the falsy ones included ([p or default] is not admitted there). *)
+Theorem c09_imm_flow_complete : forall m d g z,
+  flow_harmless_for KImm m = true -> field_complete (flow_fun m d g) z.
+Proof. exact imm_flow_complete. Qed.
 
 Theorem c09_args_lossless_missing_reads_nothing : forall c fl, copy_args_lossless c fl = true ->
   forall f k, In (f, k, HMissing) c -> flows_of fl f = [].
